@@ -251,6 +251,74 @@ def _check_proxy_domain(res, mm, sc, T, cname, unit, via_file, full, history):
                 return
 
 
+def surplus_cval_files(res, tier):
+    """Files from a NEWER writer: more CVAL chunks than this library knows controllers for the type.  The known controllers
+    decode exactly as without the surplus; values that live elsewhere (the Sampler's vibrato / fade-out fields in its
+    instrument record) are not touched by it."""
+    import random
+    import struct
+    import rv.api as api
+    from rv.modules import MODULE_CLASSES
+    from .. import iffparse, workload
+    sp = spec.load()
+    rng = random.Random(11)
+    for T, t in sorted(sp.items()):
+        if T == "Output":
+            continue
+        cls = MODULE_CLASSES[t.mtype]
+        m = cls()
+        want = {}
+        for sc in t.controllers:
+            if T == "MetaModule" and sc.name.startswith("user_defined"):
+                continue
+            try:
+                if sc.kind in ("range", "compact", "no_offset"):
+                    v = sc.max if sc.default_value() != sc.max else sc.min
+                elif sc.kind == "bool":
+                    v = not sc.default_value()
+                elif sc.kind == "enum":
+                    v = [x for _n, x in sc.members if x != sc.default_value()][-1]
+                else:
+                    continue
+                setattr(m, sc.name, v)
+                want[sc.name] = v
+            except Exception:
+                pass
+        for ctx in ("synth", "project"):
+            if ctx == "synth":
+                raw = api.Synth(m).read()
+            else:
+                p = api.Project()
+                p.attach_module(m)
+                raw = p.read()
+            chunks = [(c[0], c[1]) for c in iffparse.parse(raw)]
+            last = max(i for i, c in enumerate(chunks) if c[0] == b"CVAL") if any(c[0] == b"CVAL" for c in chunks) else None
+            if last is None:
+                continue
+            k = rng.randint(1, 6)
+            extra = [(b"CVAL", struct.pack("<i", rng.choice([1, 2, 200, 77, 31000]))) for _ in range(k)]
+            out = chunks[:last + 1] + extra + chunks[last + 1:]
+            # the CMID record grows with the CVAL list in real files
+            for i, c in enumerate(out):
+                if c[0] == b"CMID" and i > last:
+                    out[i] = (b"CMID", c[1] + bytes([0, 0, 0, 0, 0, 0, 0, 0xFF]) * k)
+                    break
+            res.count("surplus_cval_files")
+            res.case((T, ctx, "surplus-cval", k))
+            desc = {"type": T, "ctx": ctx, "surplus": k}
+            try:
+                o = workload.load(iffparse.build(out))
+            except Exception as e:
+                res.violation(f"C10:surplus-cval-unloadable:{T}:{workload.exc_key(e)}", f"{T} ({ctx}) with {k} surplus CVAL chunks does not load: {e!r}", desc)
+                break
+            lm = o.module if ctx == "synth" else o.modules[1]
+            for name, v in want.items():
+                got = _val(getattr(lm, name))
+                if got != _val(v):
+                    res.violation(f"C10:decode:{T}.{name}:surplus-cval", f"{T}.{name} stored as {v!r}; with {k} surplus CVAL chunks behind the known ones it loads as {got!r} ({ctx})", desc)
+                    break
+
+
 def reflect_histories(res, tier):
     """A MultiCtl's own `value` after reflect(): whatever route put the value there (file, set_raw, assignment, reflect with
     or without sending it out again), its stored form is the value itself."""
@@ -349,6 +417,8 @@ def run_shard(spec_, res):
         return
     if spec_["shard"] == 0:
         reflect_histories(res, spec_["tier"])
+    if spec_["shard"] == 1:
+        surplus_cval_files(res, spec_["tier"])
     for T, cname, unit in spec_["tasks"]:
         check_controller(res, T, cname, unit)
         if spec_["tier"] == "thorough" and T != "Output":
